@@ -9,3 +9,6 @@ Definition gen_cfg : howcfg :=
     "_"%char " "%char
     ["left anti"%string; "left semi"%string]
     "cross"%string "full outer"%string "right"%string true true.
+(* facts the harness uses when it observes the lineage of a case (not parameters of the model) *)
+Definition gen_self_join_exact : bool := true.
+Definition gen_rename_in_place : bool := true.
